@@ -113,7 +113,7 @@ static void run_case(const std::vector<std::string>& t)
         display_lsf = t[1][0] == '1';
         noise_blanker = t[1][1] == '1';
         auto cbs = split_on(t[2], ';');
-        for (size_t i = 0; i != cbs.size(); ++i) { if (i) emit(" | "); emit(one_callback(cbs[i])); }
+        for (size_t i = 0; i != cbs.size(); ++i) { auto s = one_callback(cbs[i]); emit((i ? " | " : "") + s); }
     } else if (t[0] == "ax25" && t.size() == 2) {
         auto b = vh::from_hex(t[1]);
         std::string s(b.begin(), b.end());
@@ -204,8 +204,7 @@ static void run_case(const std::vector<std::string>& t)
             if (lichpath) { snap.resize(sizeof dec->depuncture_buffer); std::memcpy(snap.data(), &dec->depuncture_buffer, snap.size()); }
             auto r = (*dec)(sync_of(f[0][0]), buf, cost);
             bool clean = !lichpath || std::memcmp(snap.data(), &dec->depuncture_buffer, snap.size()) == 0;
-            if (i) emit(" | ");
-            emit(std::string(res_name(r)) + " cbs=" + std::to_string(ncb) + " pk=" + std::to_string(current_packet.size())
+            emit(std::string(i ? " | " : "") + res_name(r) + " cbs=" + std::to_string(ncb) + " pk=" + std::to_string(current_packet.size())
                  + (clean ? "" : " WROTE-OUTSIDE-LSF") + (proto_ok ? "" : " PACKET-AFTER-EOF"));
         }
         std::cerr.rdbuf(olderr);
